@@ -55,7 +55,14 @@ def check_propagate(ctx, R, modules=ANCHOR_MODULES_C03, note_modules=('streamz.r
         if not sites:
             continue
         cls = fn.cls
-        paths = ctx.paths(fn, cls)
+        # a method of a private base class is analysed as a method of each concrete subclass (where its hooks resolve)
+        contexts = [cls]
+        if cls is not None and cls in getattr(M, 'private_bases', ()) and fn.owner is cls:
+            subs = [c for c in M.classes if c.methods.get(fn.name) is fn and c is not cls and c not in M.private_bases]
+            contexts = subs or [cls]
+        paths = []
+        for c_ in contexts:
+            paths += list(ctx.paths(fn, c_))
         R.count('paths', len(paths))
         con = ctx.construct(fn)
         cname = cls.name if cls else None
